@@ -9,6 +9,7 @@ import Dawgs.Model.C01
 import Dawgs.Model.C01S2
 import Dawgs.Model.C01Chain
 import Dawgs.Model.C01Count
+import Dawgs.Model.C01Limit
 /-! C01 semantic-search driver (suite `c01sem`, also used by C02).
 
 Input: `sem <gseed> <nrandom> <exN> <exE> <kindmap> <params> <cypher sexp> <sql sexp>` — the parsed Cypher model and the REAL emitted
@@ -227,6 +228,31 @@ def compareOn (km : KindMap) (params : List (String × Val)) (q : Cy.Query) (s :
         let ex := if ex.isEmpty && !(bagEq crRev crS) && bagEq crRev srS then ["path-in-reverse-order"] else ex
         .differ ex s!"graph={renderGraph g} cy={(renderRows cr).replace " " "_"} sql={(renderRows sr).replace " " "_"}"
 
+def subBag : List (List RVal) → List (List RVal) → Bool
+  | [], _ => true
+  | x :: xs, ys =>
+    match ys.findIdx? (rowEq x) with
+    | some i => subBag xs (ys.eraseIdx i)
+    | none => false
+
+/-- stage S2L (LIMIT k without ORDER BY): the prediction of `tr_sound_S2L` — against the rows of the BASE query the statement's rows are a
+sub-bag of exactly min(k, number of base rows) rows -/
+def compareCut (km : KindMap) (base : Cy.Query) (k : Nat) (s : Stmt) (g : Graph) : Outcome :=
+  match Cy.eval Cy.Quirks.none g base with
+  | .error w => .unmodelledCy w
+  | .ok (_, crows) =>
+    let cr := crows.map (fun r => r.map (Cy.CVal.toR g km))
+    match Sql.eval (encode km g) s [] with
+    | .error e =>
+      let (c, w) := errClass e
+      if c == "unmodelled" then .unmodelledSql w
+      else if c == "runtime" then .sqlRuntime s!"{w.replace " " "_"} graph={renderGraph g} cy={(renderRows cr).replace " " "_"}"
+      else .sqlOther c s!"{w.replace " " "_"} graph={renderGraph g}"
+    | .ok t =>
+      let sr := t.rows.map (fun r => r.map valToR)
+      if sr.length == min k cr.length && subBag sr cr then .agree
+      else .differ [] s!"graph={renderGraph g} limit={k} base-cy={(renderRows cr).replace " " "_"} sql={(renderRows sr).replace " " "_"}"
+
 def kindMapOf : Sexp → Option KindMap
   | .list (.atom "list" :: xs) => xs.mapM (fun x => match x with
       | .list [.str k, .atom n] => n.toNat?.map (fun i => (k, i))
@@ -387,7 +413,10 @@ def tieStep (_ : Unit) (ts : List String) : Unit × String :=
       match kindMapOf kmS, ReadCy.query cyS, SqlSexp.stmt sqlS with
       | some km, .ok q, .ok s =>
         -- which stage does the parsed query belong to, and is its Cypher reading the parsed query itself?
-        let stage : Option (String × Bool × Bool) := match C01.ofCy q with
+        let lim := C01.ofCyLimit2 q
+        let stage : Option (String × Bool × Bool) := match lim with
+          | some l => some ("S2L", l.toCy == q, l.base.wf)
+          | none => match C01.ofCy q with
           | some s1 => some ("S1", s1.toCy == q, s1.wf)
           | none => match C01.ofCy2 q with
             | some s2 => some ("S2b", s2.toCy == q, s2.wf)
@@ -405,7 +434,7 @@ def tieStep (_ : Unit) (ts : List String) : Unit × String :=
           if !wf then ((), "outside-fragment not-well-formed-for-" ++ stg) else
           -- the hop's join order is the translator's choice (selectivity heuristic over its Go tree): the real statement must be the
           -- model statement for ONE of the two orders; `dir` records whether it is the order the model's approximation picks
-          let cands := [C01.tr5F (fun _ => false) (fun _ => false) (fun _ => false) true true km q, C01.tr5F (fun _ => true) (fun _ => true) (fun _ => true) true true km q].filterMap id
+          let cands := [C01.tr6F (fun _ => false) (fun _ => false) (fun _ => false) true true true km q, C01.tr6F (fun _ => true) (fun _ => true) (fun _ => true) true true true km q].filterMap id
           match cands with
           | [] => ((), "tie-differs model-translator-rejects-a-translated-query")
           | (st0, ps) :: _ =>
@@ -422,8 +451,12 @@ def tieStep (_ : Unit) (ts : List String) : Unit × String :=
                 let hypB := fun (g : Graph) => if stg == "S1" || stg == "S1c" then C01.graphOKb km g else C01.graphOK2b km g
                 let inHyp := graphs.filter hypB
                 let outHyp := graphs.filter (fun g => !hypB g)
-                let outsIn := inHyp.map (compareOn km [] q s ordered [])
-                let outsOut := outHyp.map (compareOn km [] q s ordered [])
+                -- S2L: the reference semantics refuses a LIMIT that has to choose; the theorem speaks about the base query's rows
+                let cmp := match lim with
+                  | some l => compareCut km l.base.toCy l.k s
+                  | none => compareOn km [] q s ordered []
+                let outsIn := inHyp.map cmp
+                let outsOut := outHyp.map cmp
                 let isAgree := fun (o : Outcome) => match o with | .agree => true | _ => false
                 let isUsql := fun (o : Outcome) => match o with | .unmodelledSql _ => true | _ => false
                 let bad := outsIn.filter (fun o => !(isAgree o || isUsql o))
